@@ -458,13 +458,26 @@ def _stmt_exprs(st):
     return [st]
 
 
+_UNIQUE_METHOD_NAMES: Set[str] = set()       # names defined exactly once in the whole package (set by normalise)
+
+
+def _receiver_ok(e) -> bool:
+    """Receiver expressions that can be bound to `self` without evaluating anything twice."""
+    return isinstance(e, ast.Name) or (isinstance(e, ast.Attribute) and _receiver_ok(e.value))
+
+
 def _is_call_of(h: Helper, call: ast.Call, ctx_cls: Optional[str], ctx_rel: str, imports, in_outer) -> bool:
     f = call.func
     if h.outer is not None:
         return in_outer and isinstance(f, ast.Name) and f.id == h.name
     if h.cls is not None:
-        return isinstance(f, ast.Attribute) and f.attr == h.name and isinstance(f.value, ast.Name) \
-            and ((f.value.id in ("self", "cls") and ctx_cls == h.cls) or f.value.id == h.cls)
+        if not (isinstance(f, ast.Attribute) and f.attr == h.name):
+            return False
+        if isinstance(f.value, ast.Name) and ((f.value.id in ("self", "cls") and ctx_cls == h.cls) or f.value.id == h.cls):
+            return True
+        # `<receiver>.name(...)` on any receiver, when no other function of the package has this name
+        return h.name in _UNIQUE_METHOD_NAMES and not h.static and _receiver_ok(f.value) \
+            and not (isinstance(f.value, ast.Name) and f.value.id in ("self", "cls"))
     if isinstance(f, ast.Name) and f.id == h.name:
         if ctx_rel == h.rel:
             return True
@@ -503,6 +516,12 @@ def normalise(trees: Dict[str, ast.Module], inventory: Optional[Set[str]] = None
                 helpers.append(Helper(key, rel, node, cls, outer))
         if not helpers:
             break
+        counts: Dict[str, int] = {}
+        for rel, tree in trees.items():
+            for key, node, cls, outer in function_keys(rel, tree):
+                counts[node.name] = counts.get(node.name, 0) + 1
+        _UNIQUE_METHOD_NAMES.clear()
+        _UNIQUE_METHOD_NAMES.update(n for n, c in counts.items() if c == 1 and len(n) > 3)
 
         def callees(h: Helper):
             out = []
@@ -613,8 +632,11 @@ def _inline_everywhere(h: Helper, trees, imports) -> Tuple[int, int]:
     n_in = 0
     pure = _pure_expr_helper(h)
     for rel, tree in trees.items():
-        if h.cls is not None or h.outer is not None:
+        if h.outer is not None:
             if rel != h.rel:
+                continue
+        elif h.cls is not None:
+            if rel != h.rel and h.name not in _UNIQUE_METHOD_NAMES:
                 continue
         elif rel != h.rel and imports.get(rel, {}).get(h.name) != h.rel:
             continue
